@@ -408,7 +408,9 @@ def main():
     # Props/C03.lean (term semantics, protocol of the shared state, when_all), Props/C03Life.lean (ownership of
     # the shared state: no touch after release, destroyed exactly once, pinned split_tuple witness) and
     # Props/C03s.lean (payload locations: every payload is read while its operation state is alive)
-    PROPS = ['C03', 'C03Life', 'C03s']
+    # Props/C03w.lean (life cycle of the when_all / when_all_vector operation state: one completion by the last
+    # child, no access after the last decrement, destroyed exactly once)
+    PROPS = ['C03', 'C03Life', 'C03s', 'C03w']
     ok_build, build_log = lean_build(PROPS)
     audit = {'obligations': 0, 'discharged': 0, 'problems': ['lake build failed'], 'theorems': [],
              'checker_cmd': f'cd {LEAN} && lake build'}
